@@ -201,6 +201,18 @@ def check_middleware(acc):
                 for k in ("author", "editor", "translator"):
                     if got2[k] != " and ".join(exp):
                         acc.violation({"oracle": "middleware_merge", "field": k}, {"case": case, "observed": got2[k], "expected": " and ".join(exp)})
+                # ... and splitting again gives the same pieces: the merged entry (the same object in in-place mode, with whatever
+                # the two earlier passes left in its metadata) goes through the splitter a second and a third time
+                cur = Library([back])
+                for round_ in (2, 3):
+                    cur = SeparateCoAuthors(allow_inplace_modification=inplace).transform(cur)
+                    got3 = {f.key: f.value for f in cur.entries[0].fields}
+                    exp3 = R.split_coauthors(" and ".join(exp))
+                    for k in ("author", "editor", "translator"):
+                        if got3[k] != exp3:
+                            acc.violation({"oracle": "separate_merge_separate", "field": k, "round": round_}, {"case": case, "observed": got3[k], "expected": exp3})
+                    if round_ == 2:
+                        cur = MergeCoAuthors(allow_inplace_modification=inplace).transform(cur)
             except Exception as ex:
                 acc.exception(ex, {"middleware": s, "inplace": inplace}, "SeparateCoAuthors/MergeCoAuthors")
 
